@@ -95,14 +95,16 @@ def swtpm_text(data):
             c = bytes([nxt(256) for _ in range(nxt(6))])
             parts.append(f"Ctrl {'Cmd' if nxt(2) else 'Rsp'}: length {len(c)}{nl}")
             payload(c)
-        parts.append(f"SWTPM_IO_{'Read' if i % 2 == 0 else 'Write'}: length {len(m)}{nl}")
+        # the header's "length N" is commentary: what a section carries is its pairs (one header in five disagrees)
+        shown = len(m) if nxt(5) else (max(0, len(m) - 1 - nxt(3)), len(m) + 1 + nxt(4), 0)[nxt(3)]
+        parts.append(f"SWTPM_IO_{'Read' if i % 2 == 0 else 'Write'}: length {shown}{nl}")
         payload(m)
     if nxt(3) == 0:
         parts.append(f"Ctrl Cmd: length 4{nl}00 00 00 01{nl}")
     return "".join(parts)
 
 
-def pcapng_bytes(data):
+def pcapng_bytes(data, ethernet=None):
     msgs = split_messages(data)
     if msgs is None:
         return None
@@ -111,15 +113,17 @@ def pcapng_bytes(data):
     from .containers import _frame
 
     nxt = _bits(data, 3)
-    ethernet = bool(nxt(2))
+    draw = bool(nxt(2))
+    ethernet = draw if ethernet is None else ethernet
     f = io.BytesIO()
-    w = dpkt.pcapng.Writer(f, linktype=dpkt.pcap.DLT_EN10MB if ethernet else dpkt.pcap.DLT_RAW)
+    w = dpkt.pcapng.Writer(f, linktype=dpkt.pcap.DLT_EN10MB if ethernet else (228, dpkt.pcap.DLT_RAW)[nxt(2)])
+    macs = (bytes(6), bytes(6)) if nxt(2) else (bytes(nxt(256) for _ in range(6)), bytes(nxt(256) for _ in range(6)))
     ts = 1.0
-    for m in msgs:
+    for k, m in enumerate(msgs):
         if nxt(5) == 0:
-            w.writepkt(_frame(bytes([nxt(256) for _ in range(nxt(10))]), ethernet), ts=ts)  # a runt packet: skipped by the front end
+            w.writepkt(_frame(bytes([nxt(256) for _ in range(nxt(10))]), ethernet, macs), ts=ts)  # a runt packet: skipped by the front end
             ts += 0.001
-        w.writepkt(_frame(m, ethernet), ts=ts)
+        w.writepkt(_frame(m, ethernet, macs if k % 2 == 0 else macs[::-1]), ts=ts)
         ts += 0.001
     return f.getvalue()
 
